@@ -86,8 +86,7 @@ def run(spec_dirs, module, cfg, workers=8, timeout=600, extra=None, simulate=Non
     d = scratch_copy(spec_dirs)
     r.scratch = d
     cmd = ['java', '-XX:+UseParallelGC', '-Xss64m']
-    if heap:
-        cmd.append('-Xmx' + heap)
+    cmd.append('-Xmx' + (heap or os.environ.get('VERIF_TLC_HEAP') or '8g'))
     if deque:
         cmd.append('-Dtlc2.tool.queue.IStateQueue=StateDeque')
     cmd += ['-cp', JAR, 'tlc2.TLC', '-workers', str(workers), '-metadir', os.path.join(d, 'meta'),
